@@ -81,6 +81,7 @@ def run_level_check(prop, tier, panel_names, level="model_checking", design_cfgs
     nontrivial = set()
     samples = []
     other_props = {}
+    ext = {}
     tlc_states = 0
     all_panels = []
     for name in panel_names:
@@ -108,6 +109,9 @@ def run_level_check(prop, tier, panel_names, level="model_checking", design_cfgs
                 evd = evs[li] if 0 <= li < len(evs) else {}
                 if clause.startswith("MACH."):
                     raise MachineryError(f"{clause} in scenario {sc['id']}: {evd}")
+                if clause.startswith("EXT."):
+                    ext[clause] = ext.get(clause, 0) + 1
+                    continue
                 if clause.startswith(prefixes):
                     summ = res["summaries"][i]
                     v.violation(clause, site=_site_of(evd),
@@ -138,6 +142,7 @@ def run_level_check(prop, tier, panel_names, level="model_checking", design_cfgs
         "spec_actions_exercised_by_real_traces": actions,
         "samples": samples,
         "clauses_of_other_properties_seen": other_props,
+        "extended_conformance_deviations": ext,
         "exhaustive": False,
     })
     v.assumptions += list(notes) + [
